@@ -84,12 +84,39 @@ class Query:
                      z3.And(self.sql_err, z3.Not(self.may)),
                      z3.And(z3.Not(self.sql_err), z3.Not(self.may), differ))
 
+    def disjuncts(self):
+        """the cases of bad(), one query each (used when the single query is not decided)"""
+        cols = [c[0] for c in self.O.comps]
+        ids = [c[0] for c in self.O.comps if c[2] == "Identifier"]
+        ok = z3.And(z3.Not(self.sql_err), z3.Not(self.may))
+        out = [z3.And(self.must, z3.Not(self.sql_err)), z3.And(self.sql_err, z3.Not(self.may)), z3.And(ok, dup_keys(self.T, ids))]
+        if len(cols) > 1:
+            # sound because both sides are keyed by the identifiers (duplicate keys on either side are cases of their own)
+            out.append(z3.And(ok, dup_keys(self.O.table(), ids)))
+            out += [z3.And(ok, rows_differ(self.T, self.O.table(), ids + [c])) for c in cols if c not in ids]
+            out.append(z3.And(ok, rows_differ(self.T, self.O.table(), ids)))
+        else:
+            out.append(z3.And(ok, rows_differ(self.T, self.O.table(), cols)))
+        return out
+
     def check(self, extra=()):
         s = self.solver()
         s.add(self._spec(self.bad()))
         s.add(*extra)
         t = time.time()
         r = s.check()
+        if r == z3.unknown and not extra:
+            # decide the cases of the disjunction separately: two results differ iff they differ on the identifiers or on the identifiers + one component
+            verdicts = []
+            for d in self.disjuncts():
+                s2 = self.solver()
+                s2.add(self._spec(d))
+                r2 = s2.check()
+                verdicts.append(r2)
+                if r2 == z3.sat:
+                    return "sat", s2.model(), time.time() - t
+            if all(v == z3.unsat for v in verdicts):
+                return "unsat", None, time.time() - t
         dt = time.time() - t
         return str(r), (s.model() if r == z3.sat else None), dt
 
@@ -287,6 +314,12 @@ def expected_rows(case, O, subs):
                     return None
                 d[c] = ["tp"] + [_f(x) for x in parts]
                 continue
+            if sv.kind == "iv":
+                parts = [ceval(sv.fields[k].val, subs, memo) for k in ("d1", "d2")]
+                if any(x is None for x in parts):
+                    return None
+                d[c] = H.render_iv(_f(parts[0]), _f(parts[1]))
+                continue
             v = ceval(sv.val, subs, memo)
             if v is None:
                 return None
@@ -369,6 +402,8 @@ def _close(a, b):
         return bool(a) == bool(b) and isinstance(a, bool) and isinstance(b, bool)
     if isinstance(a, str) or isinstance(b, str):
         return a == b
+    if isinstance(a, int) and isinstance(b, int):
+        return a == b          # Integer values compare exactly (int64 range: a float comparison would hide a lost unit)
     a, b = float(a), float(b)
     if math.isnan(a) or math.isnan(b):
         return False
@@ -460,6 +495,16 @@ def replay(case, query, model):
     info["observed"] = [{c: R._norm(v) for c, v in row.items()} for row in got.data.to_dict("records")]
     if diff is None:
         info["status"] = "not_reproduced"
+        # a result cell that the encoding holds as a non-period spelling (marker number) reaches the user only through the output
+        # representation macro, which may repair it: the run() output cannot confirm or refute the difference
+        for r in query.T.rows:
+            for c, sv in r.cols.items():
+                if sv.kind == "tp":
+                    n = ceval(sv.fields["num"].val, subs, memo)
+                    p = ceval(r.present, subs, memo)
+                    if n is not None and z3.is_int_value(n) and n.as_long() < 0 and p is not None and z3.is_true(p):
+                        info["status"] = "inconclusive"
+                        info["note"] = "non-canonical period spelling inside the engine; hidden by the output representation"
     else:
         info["status"] = "reproduced"
         info["what"] = diff
